@@ -29,7 +29,7 @@ func init() {
 		MinEvals:    floor(3200, 110000),
 		MinDistinct: floor(1500, 40000),
 		RequiredCells: func(string) []string {
-			cells := []string{"heterogeneous", "heterogeneous/some-statement-false", "hook/returns-satisfying", "hook/returns-violating", "hook/returns-empty", "hook/returns-subset", "hook/error", "hook/sees-token-args", "mono/add-statement", "mono/add-link", "pattern/only-root", "pattern/only-leaf", "all-true"}
+			cells := []string{"scale", "scale/long-chain", "scale/many-statements", "scale/history", "heterogeneous", "heterogeneous/some-statement-false", "hook/returns-satisfying", "hook/returns-violating", "hook/returns-empty", "hook/returns-subset", "hook/error", "hook/sees-token-args", "mono/add-statement", "mono/add-link", "pattern/only-root", "pattern/only-leaf", "all-true"}
 			for _, lp := range []string{"first", "middle", "last"} {
 				for _, sp := range []string{"first", "middle", "last", "only"} {
 					cells = append(cells, "false/link="+lp+"/stmt="+sp)
@@ -131,6 +131,7 @@ func kindsPerLink(s *chain.Scenario) string {
 
 func runC03(w *mon.W) {
 	c03Heterogeneous(w)
+	c03Scale(w)
 	r := w.Rng
 	total := w.Share(w.Pick(3500, 100000))
 	for it := 0; it < total; it++ {
@@ -501,4 +502,139 @@ func containsKind(s ref.Stmt, k string) bool {
 		}
 	}
 	return false
+}
+
+// c03Scale: size thresholds and history. Policies of 1..130 statements per link and chains of
+// up to 40 links, all statements true except at most one at a random (link, statement)
+// position; and the same delegation objects (one loader) checked against a satisfying
+// invocation, then a violating one, then the satisfying one again - the verdict of a check may
+// not depend on what the shared delegations were matched against before.
+func c03Scale(w *mon.W) {
+	r := w.Rng
+	total := w.Share(w.Pick(240, 5000))
+	counts := []int{1, 2, 5, 17, 33, 65, 130}
+	for it := 0; it < total; it++ {
+		n := 1 + r.IntN(3)
+		if it%5 == 0 {
+			n = 9 + r.IntN(32)
+		}
+		s := chain.Conformant(r, n, 0)
+		s.Args = gen.ArgsMap(r)
+		var paths []gen.Path
+		gen.Paths(s.Args, nil, &paths, 3)
+		if len(paths) == 0 {
+			continue
+		}
+		for k := range s.Links {
+			c := counts[r.IntN(len(counts))]
+			if n > 8 {
+				c = r.IntN(4)
+			}
+			for j := 0; j < c; j++ {
+				if st, ok := gen.StmtWithTruth(r, s.Args, paths, 1, true); ok {
+					s.Links[k].Pol = append(s.Links[k].Pol, st)
+				}
+			}
+			s.Links[k].PolIPLD = r.IntN(3) == 0
+		}
+		falsified := ""
+		if it%3 != 0 {
+			k := r.IntN(n)
+			if st, ok := gen.StmtWithTruth(r, s.Args, paths, 1, false); ok {
+				pol := append(ref.Policy{}, s.Links[k].Pol...)
+				j := len(pol)
+				if len(pol) > 0 && r.IntN(3) > 0 {
+					j = r.IntN(len(pol))
+					pol[j] = st
+				} else {
+					pol = append(pol, st)
+				}
+				s.Links[k].Pol = pol
+				falsified = fmt.Sprintf("%d/%d of %d", k, j, len(pol))
+			}
+		}
+		tri, why := s.PoliciesOK(s.Args)
+		if tri == ref.Unresolved {
+			w.Inconclusive("C03 scale generator left the unambiguous fragment at " + why)
+			continue
+		}
+		s.Wire = r.IntN(3)
+		b, err := s.Build(r)
+		if err != nil {
+			w.Inconclusive("C03 scale scenario could not be realised: " + err.Error())
+			continue
+		}
+		hook := it%4 == 0
+		e := allowed(b.Inv, b.Loader, hook)
+		w.Eval(1)
+		w.Cover("scale")
+		if n > 8 {
+			w.Cover("scale/long-chain")
+		}
+		npol := 0
+		for _, l := range s.Links {
+			npol += len(l.Pol)
+			if len(l.Pol) >= 33 {
+				w.Cover("scale/many-statements")
+			}
+		}
+		w.Distinct("scale", n, npol, falsified)
+		if e == nil && tri == ref.False {
+			d := s.Describe()
+			d["falsified_link/stmt"] = falsified
+			w.Violate("unsound/scale", fmt.Sprintf("ExecutionAllowed = nil although statement %s is false on the arguments (chain of %d links, %d statements)", why, n, npol), d)
+		}
+		if tri != ref.True || e != nil {
+			continue
+		}
+		// history: the same loader (same delegation objects) against good / bad / good arguments
+		var bad ref.V
+		found := false
+		for try := 0; try < 30 && !found; try++ {
+			bad = mutateArgs(r, s.Args)
+			if t, _ := s.PoliciesOK(bad); t == ref.False {
+				found = true
+			}
+		}
+		if !found {
+			continue
+		}
+		s2 := *s
+		s2.Args = bad
+		invBad, err := s2.MakeInvocation(b, s.Audience, r)
+		if err != nil {
+			continue
+		}
+		order := it % 2
+		var e1, e2, e3 error
+		if order == 0 {
+			e1 = allowed(b.Inv, b.Loader, hook)
+			e2 = allowed(invBad, b.Loader, hook)
+			e3 = allowed(b.Inv, b.Loader, !hook)
+		} else {
+			e2 = allowed(invBad, b.Loader, hook)
+			e1 = allowed(b.Inv, b.Loader, hook)
+			e3 = allowed(invBad, b.Loader, !hook)
+			e3 = flipNil(e3)
+		}
+		w.Eval(3)
+		w.Cover("scale/history")
+		if e1 != nil || e2 == nil || e3 != nil {
+			d := s.Describe()
+			d["violating_args"] = bad.String()
+			d["order"] = []string{"good,bad,good", "bad,good,bad"}[order]
+			d["satisfying"] = errStr(e1)
+			d["violating"] = errStr(e2)
+			w.Violate("history-dependent/shared-delegations", fmt.Sprintf("the same delegations checked against satisfying and violating invocations in turn (order %d): satisfying -> %s, violating -> %s, third check consistent=%v", order, errStr(e1), errStr(e2), e3 == nil), d)
+		}
+	}
+}
+
+// flipNil turns "denied" into nil and "allowed" into an error, so that the third check of
+// the bad,good,bad order reads like the others (nil = as expected).
+func flipNil(e error) error {
+	if e == nil {
+		return errors.New("allowed")
+	}
+	return nil
 }
